@@ -10,6 +10,7 @@ open GoInt Model Model.Mvp4
 
 set_option linter.unusedSimpArgs false
 set_option linter.unusedVariables false
+set_option linter.unusedSectionVars false
 
 namespace Proofs.Mvp4
 
@@ -72,13 +73,13 @@ theorem get1_set [Inhabited ν] (m : GoMap κ ν) (k k' : κ) (v : ν) :
     GoMap.get1 (m.set k v) k' = if k' == k then v else GoMap.get1 m k' := by
   unfold GoMap.get1 GoMap.get
   rw [find?_set]
-  split <;> rfl
+  by_cases h : (k' == k) = true <;> simp [h]
 
 theorem get1_erase [Inhabited ν] (m : GoMap κ ν) (k k' : κ) :
     GoMap.get1 (m.erase k) k' = if k' == k then default else GoMap.get1 m k' := by
   unfold GoMap.get1 GoMap.get
   rw [find?_erase]
-  split <;> rfl
+  by_cases h : (k' == k) = true <;> simp [h]
 
 theorem get1_of_find? [Inhabited ν] (m : GoMap κ ν) (k : κ) :
     GoMap.get1 m k = (m.find? k).getD default := by
@@ -141,6 +142,13 @@ theorem Consec.append_last : ∀ (x : Word) (l : List Word) (y : Word),
     simp only [List.cons_append, Consec] at h ⊢
     exact ⟨h.1, Consec.append_last _ l y h.2⟩
 
+theorem Consec.append_congr : ∀ (x : Word) (l t t' : List Word),
+    Consec x (l ++ t) → (∀ y, Consec y t → Consec y t') → Consec x (l ++ t')
+  | x, [], t, t', h, hc => hc x h
+  | x, z :: l, t, t', h, hc => by
+    simp only [List.cons_append, Consec] at h ⊢
+    exact ⟨h.1, Consec.append_congr _ l t t' h.2 hc⟩
+
 theorem Consec.tail {x y : Word} {l : List Word} (h : Consec x (y :: l)) : Consec (x + 4#32) l := h.2
 theorem Consec.head {x y : Word} {l : List Word} (h : Consec x (y :: l)) : y = x := h.1
 
@@ -170,16 +178,23 @@ theorem get1_deletePending_ge (ws : List Reg) : ∀ (m : GoMap Reg Int) (r : Reg
     refine Int.le_trans ?_ (ih _ r)
     by_cases h : r = x
     · subst h
-      simp only [List.count_cons, beq_self_eq_true, if_true]
-      split
-      · rw [get1_erase]; simp; show _ ≤ (0 : Int); omega
-      · rw [get1_set]; simp; omega
+      have hc : (List.count r (r :: xs) : Nat) = List.count r xs + 1 := by simp [List.count_cons]
+      rw [hc]
+      by_cases hv : GoMap.get1 m r - 1 ≤ 0
+      · rw [if_pos hv, get1_erase]
+        simp only [beq_self_eq_true, if_true]
+        show _ ≤ (0 : Int) - _
+        omega
+      · rw [if_neg hv, get1_set]
+        simp only [beq_self_eq_true, if_true]
+        omega
     · have h1 : (r == x) = false := by simpa using h
-      have h2 : (x == r) = false := by simpa using (Ne.symm h)
-      simp only [List.count_cons, h2, Bool.false_eq_true, if_false, Nat.add_zero]
-      split
-      · rw [get1_erase]; simp [h1]
-      · rw [get1_set]; simp [h1]
+      have hc : (List.count r (x :: xs) : Nat) = List.count r xs := by
+        simp [List.count_cons, Ne.symm h]
+      rw [hc]
+      by_cases hv : GoMap.get1 m x - 1 ≤ 0
+      · rw [if_pos hv, get1_erase]; simp [h1]
+      · rw [if_neg hv, get1_set]; simp [h1]
 
 /-- the hazard test is false: no register read (other than `x0`) has a positive counter -/
 theorem hazard_false {m : GoMap Reg Int} {rs : List Reg} (h : isWriteDataHazard m rs = false) :
@@ -191,7 +206,7 @@ theorem hazard_false {m : GoMap Reg Int} {rs : List Reg} (h : isWriteDataHazard 
   simp only [hz, Bool.true_and] at this
   rw [get1_of_find?]
   cases hf : m.find? r with
-  | none => simp; rfl
+  | none => simp
   | some v =>
     rw [hf] at this
     simp only [Bool.not_eq_true, decide_eq_false_iff_not] at this
@@ -354,5 +369,124 @@ theorem applyChanges_comm : ∀ (c1 c2 : List (Word × Byte)) (m : List Byte),
     rw [applyChanges_cons, applyChanges_cons]
     rw [ih c2 _ (fun a ha b hb => h a (List.mem_cons_of_mem _ ha) b hb)]
     rw [set_applyChanges_comm _ _ c2 m (fun q hq => (h p (by simp) q hq).symm)]
+
+
+/-! ### more on the scoreboards (liveness) -/
+
+theorem get1_deletePending_le (ws : List Reg) : ∀ (m : GoMap Reg Int) (r : Reg), (ws.count r : Int) ≤ GoMap.get1 m r →
+    (∀ r', 0 ≤ GoMap.get1 m r') →
+    GoMap.get1 (deletePendingWriteRegisters m ws) r ≤ GoMap.get1 m r - (ws.count r : Nat) ∧
+    (∀ r', 0 ≤ GoMap.get1 (deletePendingWriteRegisters m ws) r') := by
+  induction ws with
+  | nil => intro m r _ h0; simp [deletePendingWriteRegisters]; exact h0
+  | cons x xs ih =>
+    intro m r hc h0
+    simp only [deletePendingWriteRegisters]
+    -- the map after handling x
+    have hm' : ∀ r', GoMap.get1 (if GoMap.get1 m x - 1 ≤ 0 then m.erase x else m.set x (GoMap.get1 m x - 1)) r' =
+        if r' = x then (if GoMap.get1 m x - 1 ≤ 0 then 0 else GoMap.get1 m x - 1) else GoMap.get1 m r' := by
+      intro r'
+      by_cases hv : GoMap.get1 m x - 1 ≤ 0
+      · rw [if_pos hv, get1_erase]
+        by_cases h : r' = x
+        · subst h; simp [hv]
+        · have : (r' == x) = false := by simpa using h
+          simp [this, h]
+      · rw [if_neg hv, get1_set]
+        by_cases h : r' = x
+        · subst h; simp [hv]
+        · have : (r' == x) = false := by simpa using h
+          simp [this, h]
+    have h0' : ∀ r', 0 ≤ GoMap.get1 (if GoMap.get1 m x - 1 ≤ 0 then m.erase x else m.set x (GoMap.get1 m x - 1)) r' := by
+      intro r'
+      rw [hm']
+      by_cases h : r' = x
+      · simp only [h, if_true]; split <;> omega
+      · simp only [h, if_false]; exact h0 r'
+    by_cases h : r = x
+    · subst h
+      have hc' : (List.count r (r :: xs) : Nat) = List.count r xs + 1 := by simp [List.count_cons]
+      rw [hc'] at hc ⊢
+      have hcx : (xs.count r : Int) ≤ GoMap.get1 (if GoMap.get1 m r - 1 ≤ 0 then m.erase r else m.set r (GoMap.get1 m r - 1)) r := by
+        rw [hm']; simp only [if_true]; split <;> omega
+      obtain ⟨i1, i2⟩ := ih _ r hcx h0'
+      refine ⟨?_, i2⟩
+      refine Int.le_trans i1 ?_
+      rw [hm']; simp only [if_true]
+      split <;> omega
+    · have hc' : (List.count r (x :: xs) : Nat) = List.count r xs := by simp [List.count_cons, Ne.symm h]
+      rw [hc'] at hc ⊢
+      have hcx : (xs.count r : Int) ≤ GoMap.get1 (if GoMap.get1 m x - 1 ≤ 0 then m.erase x else m.set x (GoMap.get1 m x - 1)) r := by
+        rw [hm']; simp only [h, if_false]; exact hc
+      obtain ⟨i1, i2⟩ := ih _ r hcx h0'
+      refine ⟨?_, i2⟩
+      refine Int.le_trans i1 ?_
+      rw [hm']; simp only [h, if_false]; omega
+
+
+theorem releaseAll_skip (id : Int) : ∀ (chs : List (Word × Byte)) (p : List (Int × Int)) (rel : List Int),
+    (∀ c ∈ chs, rel.contains (lineOf c.1) = true) → releaseAll p id chs rel = .ok p
+  | [], p, rel, _ => rfl
+  | (a, b) :: rest, p, rel, h => by
+    simp only [releaseAll]
+    have := h (a, b) (by simp)
+    simp only at this
+    rw [if_pos this]
+    exact releaseAll_skip id rest p rel (fun c hc => h c (List.mem_cons_of_mem _ hc))
+
+/-- the release loop of the write unit on a store whose bytes lie in one line that is announced -/
+theorem releaseAll_ok (id : Int) (l : Int) (p0 : Word × Byte) (ps : List (Word × Byte)) (p : List (Int × Int))
+    (hline : ∀ c ∈ p0 :: ps, lineOf c.1 = l) (hmem : (l, id) ∈ p) :
+    releaseAll p id (p0 :: ps) [] = .ok (p.erase (l, id)) := by
+  obtain ⟨a, b⟩ := p0
+  simp only [releaseAll]
+  have h0 : lineOf a = l := hline (a, b) (by simp)
+  rw [h0]
+  have hc : p.contains (l, id) = true := by simpa using hmem
+  simp only [List.contains_nil, Bool.false_eq_true, if_false, deletePwmi, hc, if_true, pure, Except.pure, bind, Except.bind]
+  apply releaseAll_skip
+  intro c hc'
+  rw [hline c (List.mem_cons_of_mem _ hc')]
+  simp
+
+
+theorem addPwmi_mem_inv {p : List (Int × Int)} {line id : Int} {x : Int × Int} (h : x ∈ addPwmi p line id) :
+    x ∈ p ∨ x = (line, id) := by
+  unfold addPwmi at h
+  split at h
+  · exact Or.inl h
+  · rcases List.mem_append.mp h with h | h
+    · exact Or.inl h
+    · exact Or.inr (by simpa using h)
+
+theorem addPwmi_nodup {p : List (Int × Int)} (line id : Int) (h : p.Nodup) : (addPwmi p line id).Nodup := by
+  unfold addPwmi
+  split
+  · exact h
+  · rename_i hc
+    have hn : (line, id) ∉ p := by simpa using hc
+    exact List.nodup_append.mpr ⟨h, by simp, by
+      intro a ha b hb
+      simp only [List.mem_singleton] at hb
+      subst hb
+      intro he; subst he; exact hn ha⟩
+
+theorem addPwmiAll_mem_inv (id : Int) : ∀ (chs : List (Word × Byte)) (p : List (Int × Int)) (x : Int × Int),
+    x ∈ addPwmiAll p id chs → x ∈ p ∨ ∃ c ∈ chs, x = (lineOf c.1, id)
+  | [], p, x, h => Or.inl h
+  | (a, b) :: rest, p, x, h => by
+    simp only [addPwmiAll] at h
+    rcases addPwmiAll_mem_inv id rest _ x h with h1 | ⟨c, hc, he⟩
+    · rcases addPwmi_mem_inv h1 with h2 | h2
+      · exact Or.inl h2
+      · exact Or.inr ⟨(a, b), by simp, h2⟩
+    · exact Or.inr ⟨c, List.mem_cons_of_mem _ hc, he⟩
+
+theorem addPwmiAll_nodup (id : Int) : ∀ (chs : List (Word × Byte)) (p : List (Int × Int)), p.Nodup →
+    (addPwmiAll p id chs).Nodup
+  | [], p, h => h
+  | (a, b) :: rest, p, h => by
+    simp only [addPwmiAll]
+    exact addPwmiAll_nodup id rest _ (addPwmi_nodup _ _ h)
 
 end Proofs.Mvp4
